@@ -9,7 +9,7 @@ from engine import conc, fault
 from props import C07, C12, C13
 from props.C10 import menu_fn as fault_menu
 
-MIX_ARGS = dict(pids=["a", "b"], contents=[b"x"], formats=[None, "c"], fake_cid=False)
+MIX_ARGS = dict(pids=["a", "b"], contents=[C_ONE], formats=[None, "c"], fake_cid=False)
 MIX_INITS = [("empty store", {}), ("a bound to X with a document", {"bind_0": 0, "obj_0": True, "meta_0_0": 0})]
 
 
@@ -43,6 +43,24 @@ def faulted_for(tier):
     return fn
 
 
+def two_instances_for(tier):
+    """the calls of a pair go through two store instances of one process opened on the same store: nothing excludes
+    them from one another, but each must still return and leave no identifier locked in either instance"""
+    def fn(w):
+        pairs = [([step.StoreObj(0, 0), step.StoreObj(1, 0)], MIX_INITS[0]),
+                 ([step.Delete(0), step.StoreObj(1, 0)], ("a bound to X", {"bind_0": 0, "obj_0": True})),
+                 ([step.Tag(1, 0), step.Delete(0)], ("a bound to X", {"bind_0": 0, "obj_0": True})),
+                 ([step.StoreMeta(0, 0, None), step.StoreMeta(0, 1, None)], MIX_INITS[1]),
+                 ([step.StoreObj(0, 0), step.StoreObj(0, 0)], MIX_INITS[0]),
+                 ([step.Delete(0), step.DeleteMeta(0, None, all_docs=True)], MIX_INITS[1])]
+        out = []
+        for calls, (iname, init) in pairs[:(6 if tier == "thorough" else 3)]:
+            out.append(("%s || through two store instances || from: %s" % (" || ".join(c.label for c in calls), iname),
+                        init, calls, dict(instances=2)))
+        return out
+    return fn
+
+
 def main(tier, replay_payload=None):
     bound = 2 if tier == "thorough" else 1
     def subset(fn, keep):
@@ -53,7 +71,7 @@ def main(tier, replay_payload=None):
     fams = {"C07": (C07.W_ARGS, subset(C07.scenarios_for(tier), ["empty store", "a and b share X", C07.WAKE_INIT[0]])),
             "C12": (C12.W_ARGS, subset(C12.scenarios_for(tier), ["no document", "a bound to X, document (a,c) present",
                                                                  "document (a,c) present"])),
-            "mixed": (MIX_ARGS, mixed_for(tier))}
+            "mixed": (MIX_ARGS, mixed_for(tier)), "two-instances": (MIX_ARGS, two_instances_for(tier))}
     f_args = C13.c13_universe(tier)
 
     def replayer(p):
@@ -89,7 +107,8 @@ def main(tier, replay_payload=None):
         "FileHashStore._synchronize_object_locked_cids", "FileHashStore._release_object_locked_cids",
         "FileHashStore._synchronize_referenced_locked_pids", "FileHashStore._release_reference_locked_pids"])
     run.bounds = dict(schedules="C07 and C12 pair scenarios (quick: from half of the starting states; thorough: all) + "
-                                "20 mixed pairs, preemption bound %d" % bound,
+                                "20 mixed pairs + 3 (6) pairs whose calls go through two store instances of one "
+                                "process (termination and lock lists only), preemption bound %d" % bound,
                       faults="every single call of the C13 menu with one injected I/O error (once / persistent); "
                              "2 (4) contending pairs at preemption bound 1 with one I/O error at a symbolic operation",
                       step_budget=4000)
